@@ -24,7 +24,7 @@ ASSUMPTIONS = [
 ]
 MONITORS = ("lost-bytes accounting: {path: bytes} of the workspace before vs after against the set of intact cache objects; audit-hook trail of "
             "removals as witness; shadow model of the link table for clean-up")
-REQUIRED_COUNTERS = ["large_file_directories", "dir_links_with_duplicate_basenames", "damaged_cache_objects", "symlinked_link_records", "checkouts", "uncached_files_in_workspace", "prompt_errors", "declining_prompt_calls", "normal_returns", "kind_swap_cases",
+REQUIRED_COUNTERS = ["inode_only_replacements", "workspaces_with_dangling_symlink", "cleanups_after_checkout", "large_file_directories", "dir_links_with_duplicate_basenames", "damaged_cache_objects", "symlinked_link_records", "checkouts", "uncached_files_in_workspace", "prompt_errors", "declining_prompt_calls", "normal_returns", "kind_swap_cases",
                      "link_histories", "unused_link_queries", "remove_links_calls", "relink_cases", "store/local", "store/base",
                      "link/copy", "link/hardlink", "link/symlink"]
 
@@ -78,10 +78,44 @@ def run_shard(ctx):
                     with open(os.path.join(ws, "bigdir", f"user{j}.bin"), "wb") as f:
                         f.write(c)
                     model[("bigdir", f"user{j}.bin")] = c
+            def mtimes_of(root_):
+                out_ = {}
+                for dp_, _dn_, fn_ in os.walk(root_):
+                    for f_ in fn_:
+                        try:
+                            out_[os.path.join(dp_, f_)] = os.stat(os.path.join(dp_, f_)).st_mtime_ns
+                        except OSError:
+                            out_[os.path.join(dp_, f_)] = None
+                return out_
+
+            recorded_view = mtimes_of(ws) if os.path.isdir(ws) else {}
             swaps = rng.random() < 0.4
             model, ops = colab.user_edit(rng, ws, model, pool, allow_kind_swaps=swaps, in_place_ok=(link == "copy"))
             if any(o in ("file->dir", "dir->file") for o in ops):
                 res.count("kind_swap_cases")
+            # a tracked file replaced by another file of the same size whose mtime was preserved (cp -p / rsync -t): only the inode differs
+            inode_only = []
+            if use_state and start != "empty" and rng.random() < 0.3:
+                for k, v in sorted(model.items()):
+                    p_ = os.path.join(ws, *k)
+                    if v and os.path.isfile(p_) and not os.path.islink(p_) and os.lstat(p_).st_nlink == 1 and rng.random() < 0.5:
+                        st_ = os.stat(p_)
+                        newv = bytes((b + 3) % 256 for b in v)
+                        tmp_ = p_ + ".verif-cp"
+                        with open(tmp_, "wb") as f:
+                            f.write(newv)
+                        os.utime(tmp_, ns=(st_.st_atime_ns, st_.st_mtime_ns))
+                        os.replace(tmp_, p_)
+                        model[k] = newv
+                        inode_only.append(k)
+                if inode_only:
+                    res.count("inode_only_replacements")
+            # a dangling symbolic link lying around in the workspace
+            dangling = False
+            if start != "empty" and rng.random() < 0.08:
+                os.symlink("/nonexistent/verif-target", os.path.join(ws, "dangling-link"))
+                dangling = True
+                res.count("workspaces_with_dangling_symlink")
             which = rng.choice(["A", "B"])
             target = load(odb, (aobj if which == "A" else bobj).hash_info)
             tfiles = A if which == "A" else B
@@ -104,6 +138,7 @@ def run_shard(ctx):
                         gen.replace_by_rename(cobjs[o], file_bytes(cobjs[o])[:-1] + b"\x00damaged")
                         os.chmod(cobjs[o], 0o644)
                         res.count("damaged_cache_objects")
+            pre_view = mtimes_of(ws) if os.path.isdir(ws) else {}
             before = walk_files(ws)
             intact = colab.cache_intact_digests(croot)
             uncached = {k for k, v in before.items() if v is not None and H("md5", v) not in intact}
@@ -130,6 +165,10 @@ def run_shard(ctx):
                     res.count("prompt_errors")
                 except (CheckoutError, LinkError) as e:
                     outcome = type(e).__name__
+                except OSError as e:
+                    if not dangling:
+                        raise
+                    outcome = type(e).__name__  # loud; the accounting below still applies
             after = walk_files(ws)
             lost = []
             for k, v in before.items():
@@ -142,10 +181,12 @@ def run_shard(ctx):
                 k = lost[0]
                 how = "removed" if k not in after else "overwritten"
                 kind = "kind-swap" if any(o in ("file->dir", "dir->file") for o in ops) else "plain"
-                res.violation(f"uncached-user-file-{how}/{kind}/{outcome}",
+                if dangling:
+                    kind = "workspace-holds-dangling-symlink"
+                res.violation(f"uncached-user-file-{how}/{kind}/{outcome}" if not dangling else "uncached-user-file-destroyed/workspace-holds-dangling-symlink",
                               f"{'/'.join(k)} held bytes that are not in the cache and was {how} by a non-forced checkout ({outcome})",
                               case=case, detail={**cfg, "fs_events": removals})
-            if blockers and outcome == "returned" and not lost:
+            if blockers and outcome == "returned" and not lost and not dangling:
                 res.violation("uncached-file-in-the-way-not-refused", f"checkout returned normally although {sorted('/'.join(k) for k in blockers)[:2]} hold uncached data in the way",
                               case=case, detail=cfg)
             if perr is not None:
@@ -155,6 +196,21 @@ def run_shard(ctx):
                 named = [k for k in uncached if k[: len(key)] == key]
                 if not named:
                     res.violation("prompt-error-names-recoverable-path", f"PromptError for {p}, which holds no uncached data", case=case, detail=cfg)
+            # "modified since recorded" in the sense the clean-up can see: the set of files or one of their mtimes changed
+            edited = start != "empty" and os.path.isdir(ws) and recorded_view != {} and pre_view != recorded_view
+            if state is not None and not lost and outcome != "returned" and edited and not dangling and rng.random() < 0.8:
+                # the checkout was refused / failed: it must not have recorded the user's edited workspace as its own link
+                res.count("cleanups_after_checkout")
+                mid = walk_files(ws)
+                unused = state.get_unused_links([], fs)
+                state.remove_links(unused, fs)
+                end = walk_files(ws) if os.path.lexists(ws) else {}
+                for k, v in mid.items():
+                    if v is not None and end.get(k) != v and H("md5", v) not in intact:
+                        res.violation(f"uncached-user-file-removed-by-link-cleanup/after-{outcome}",
+                                      f"{'/'.join(k)} holds bytes that are not in the cache; link clean-up after the checkout ({outcome}) removed it",
+                                      case=case, detail={**cfg, "unused": list(unused)[:4]})
+                        break
             if state is not None:
                 state.close()
             env.reset_staging()
